@@ -285,6 +285,80 @@ def run(ctx):
                                   {"active_dims": repr(ad), "width": width, "expected": want, "observed": got})
                 idx_cases.append((ad, width, got))
                 bump("index/%s" % kind)
+    # histories: (a) a 0/1 index list and a boolean mask of the same length are different selections, whichever was used first;
+    #            (b) kernel values on NumPy inputs refilled in place are those of the CURRENT rows
+    for first, second in (([0, 1], np.array([False, True])), (np.array([False, True]), [0, 1]), ([1, 0], np.array([True, False])),
+                          (np.array([True, False]), [1, 0]), ([1, 1, 0], np.array([True, True, False]))):
+        w_ = len(first)
+        for adv in (first, second):
+            got = np.asarray(mu.select_active_dims(jnp.arange(w_, dtype=float) + 10.0, adv)).tolist()
+            want = (np.arange(w_, dtype=float) + 10.0)[..., adv].tolist()
+            bump("index/history")
+            if got != want:
+                ctx.violation("C05|select_active_dims|history", "select_active_dims differs from NumPy indexing after an equal-looking active_dims was used",
+                              {"sequence": [repr(first), repr(second)], "active_dims": repr(adv), "expected": want, "observed": got})
+        import mellon.cov as mcov_
+        Xh = np.asarray([[rng.gauss(0, 1) for _ in range(w_)] for _ in range(3)])
+        Yh = np.asarray([[rng.gauss(0, 1) for _ in range(w_)] for _ in range(4)])
+        for adv in (first, second):
+            kk = mcov_.Matern52(1.25, active_dims=adv)
+            got = np.asarray(kk(jnp.asarray(Xh), jnp.asarray(Yh)))
+            Xs, Ys = Xh[..., adv], Yh[..., adv]
+            dd = np.sqrt(((Xs[:, None, :] - Ys[None, :, :]) ** 2).sum(-1) + 1e-12)
+            q_ = np.sqrt(5.0) * dd / 1.25
+            want = (1 + q_ + q_ * q_ / 3.0) * np.exp(-q_)
+            bump("index/history-kernel")
+            if not np.allclose(got, want, rtol=1e-9, atol=1e-12):
+                ctx.violation("C05|active_dims|history", "kernel with active_dims evaluates on the wrong columns after an equal-looking active_dims was used",
+                              {"sequence": [repr(first), repr(second)], "active_dims": repr(adv), "x": Xh.tolist(), "y": Yh.tolist(),
+                               "max_difference": float(np.abs(got - want).max())})
+    import mellon.cov as mcov_
+    for kk in (mcov_.Matern52(0.9), mcov_.ExpQuad(1.4) + mcov_.Matern32(0.7), mcov_.RatQuad(2.0, 1.1, active_dims=[0, 2])):
+        Xh = np.asarray([[rng.gauss(0, 1) for _ in range(3)] for _ in range(3)])
+        Yh = np.asarray([[rng.gauss(0, 1) for _ in range(3)] for _ in range(4)])
+        ybuf, xbuf = np.array(Yh, copy=True), np.array(Xh, copy=True)
+        kk(xbuf, ybuf)
+        kk.diag(xbuf)
+        ybuf[...] = Yh[::-1] + 0.125
+        xbuf[...] = Xh[::-1] - 0.25
+        idxb = np.random.default_rng(ctx.seed + 5).integers(0, 3, size=1100)
+        Kbig, Ksmall = np.asarray(kk(Xh[idxb], Yh)), np.asarray(kk(Xh, Yh))
+        bump("many-rows")
+        if Kbig.shape != (1100, 4) or not np.allclose(Kbig, Ksmall[idxb], rtol=1e-12, atol=1e-15):
+            ctx.violation("C05|many-rows", "among 1100 rows, a row of the Gram matrix differs from the same row in a small batch",
+                          {"kernel": repr(kk), "x": Xh.tolist(), "y": Yh.tolist(), "rows": "x[default_rng(verif_seed + 5).integers(0, 3, 1100)]",
+                           "max_difference": float(np.abs(Kbig - Ksmall[idxb]).max()) if Kbig.shape == (1100, 4) else "shape"})
+        bump("history/buffer-reuse")
+        if not (np.array_equal(np.asarray(kk(xbuf, ybuf)), np.asarray(kk(np.array(xbuf, copy=True), np.array(ybuf, copy=True))))
+                and np.array_equal(np.asarray(kk.diag(xbuf)), np.asarray(kk.diag(np.array(xbuf, copy=True))))):
+            ctx.violation("C05|history|buffer-reuse", "kernel values on NumPy inputs refilled in place differ from those on fresh copies of the same rows",
+                          {"kernel": repr(kk), "sequence": "k(xbuf, ybuf); k.diag(xbuf); xbuf[...] = x2; ybuf[...] = y2; k(xbuf, ybuf), k.diag(xbuf) vs fresh copies",
+                           "x_first": Xh.tolist(), "y_first": Yh.tolist()})
+    # history (c): hyper-parameters of a kernel object reassigned after it was evaluated (tests and users do `cov.active_dims = ...`,
+    #              `cov.ls = ...`): the next evaluation, also on inputs of the same shapes, uses the CURRENT values
+    Xh = np.asarray([[rng.gauss(0, 1) for _ in range(3)] for _ in range(3)])
+    Yh = np.asarray([[rng.gauss(0, 1) for _ in range(3)] for _ in range(4)])
+    reassign = [("ls", lambda: mcov_.Matern52(0.9), lambda k_: setattr(k_, "ls", 2.3), lambda: mcov_.Matern52(2.3)),
+                ("ls", lambda: mcov_.Exponential(0.9), lambda k_: setattr(k_, "ls", 0.4), lambda: mcov_.Exponential(0.4)),
+                ("alpha", lambda: mcov_.RatQuad(1.0, 1.2), lambda k_: setattr(k_, "alpha", 3.0), lambda: mcov_.RatQuad(3.0, 1.2)),
+                ("active_dims", lambda: mcov_.ExpQuad(1.1, active_dims=[0, 1]), lambda k_: setattr(k_, "active_dims", [1, 2]),
+                 lambda: mcov_.ExpQuad(1.1, active_dims=[1, 2])),
+                ("ls of the time factor of a product", lambda: mcov_.Matern52(1.0, active_dims=[0, 1]) * mcov_.Matern52(1.5, active_dims=-1),
+                 lambda k_: setattr(k_.right, "ls", 0.5), lambda: mcov_.Matern52(1.0, active_dims=[0, 1]) * mcov_.Matern52(0.5, active_dims=-1)),
+                ("ls", lambda: mcov_.Linear(0.9), lambda k_: setattr(k_, "ls", 2.3), lambda: mcov_.Linear(2.3))]
+    for what_, mk_, change_, fresh_ in reassign:
+        k_ = mk_()
+        k_(jnp.asarray(Xh), jnp.asarray(Yh))
+        k_.diag(jnp.asarray(Xh))
+        change_(k_)
+        got, want = np.asarray(k_(jnp.asarray(Xh), jnp.asarray(Yh))), np.asarray(fresh_()(jnp.asarray(Xh), jnp.asarray(Yh)))
+        gotd, wantd = np.asarray(k_.diag(jnp.asarray(Xh))), np.asarray(fresh_().diag(jnp.asarray(Xh)))
+        bump("history/reassign")
+        if not (np.array_equal(got, want) and np.array_equal(gotd, wantd)):
+            ctx.violation("C05|history|reassigned-%s" % what_.split()[0], "a kernel evaluated again after its %s was reassigned does not use the new value" % what_,
+                          {"kernel_now": repr(k_), "changed": what_, "x": Xh.tolist(), "y": Yh.tolist(),
+                           "sequence": "k(x, y); k.diag(x); <attribute reassigned>; k(x, y) and k.diag(x) vs a freshly constructed kernel with the new value",
+                           "max_difference": float(np.abs(got - want).max())})
     n_idx_ok = 0
     if model and idx_cases:
         body = ["From Coq Require Import List ZArith Arith.\nFrom MellonV Require Import ALists.\nImport ListNotations.",
